@@ -123,7 +123,7 @@ def token(kind: str, value: Any, line: Any = None, column: Any = None, **extra) 
 # ---------------------------------------------------------------------------------------------
 
 
-def retag_outcomes(e: Env, prev: tuple | None, cur_kind: str, cur_value: Any) -> list[tuple[str, Any, list]]:
+def retag_outcomes(e: Env, prev: tuple | None, cur_kind: str, cur_value: Any, below: str | None = "tree") -> list[tuple[str, Any, list]]:
     """Evaluate Parser.parse with lark stubbed out: one token ``cur`` is yielded by the interactive
     parser while the value stack holds ``prev`` (kind, text) or nothing.  Returns the possible
     outcomes (final token type | 'raise:<Exc>', assumptions)."""
@@ -132,6 +132,12 @@ def retag_outcomes(e: Env, prev: tuple | None, cur_kind: str, cur_value: Any) ->
         cur = token(cur_kind, cur_value() if callable(cur_value) else cur_value)
         stack = []
         if prev is not None:
+            # what lies below the previous token on lark's value stack: the token of the keyword
+            # (when `prev` is that keyword's value) or something already reduced (a Tree)
+            if below == "token":
+                stack.append(token("UNQUOTED_STRING", SStr.atom("belowkey", free=True)))
+            elif below == "tree":
+                stack.append(SObj("Tree", {"data": "reduced", "children": []}))
             pk, pt = prev
             stack.append(token(pk, pt() if callable(pt) else pt))
         state = SObj("ParserState", {"value_stack": stack})
@@ -181,3 +187,57 @@ def retag_outcomes(e: Env, prev: tuple | None, cur_kind: str, cur_value: Any) ->
 
 def printer(I: pai.Interp, **opts) -> pai.Inst:
     return I.instantiate("pprint.PrettyPrinter", [], opts)
+
+
+# ---------------------------------------------------------------------------------------------
+# the retagging oracle used by the LALR sentence checks
+# ---------------------------------------------------------------------------------------------
+
+
+class RetagRaised(Exception):
+    """Parser.parse's token loop raises for this (previous, current) token pair."""
+
+
+def make_retag(e: Env) -> Callable:
+    """retag(prev, kind, text, below) -> terminal name, evaluated from the current source of
+    Parser.parse by PAI and memoised.  ``prev`` = (kind, text | None) of the previous token,
+    ``below`` = 'token' | 'tree' | None: what lies under it on the value stack."""
+    import ast as _ast
+
+    from .core import fold as _fold
+
+    memo: dict = {}
+    parse_fn = e.repo.func("parser.Parser.parse")
+    inspected = set()
+    for n in _ast.walk(parse_fn):
+        if isinstance(n, _ast.Compare) and isinstance(n.left, _ast.Attribute) and n.left.attr == "type":
+            for c in n.comparators:
+                try:
+                    v = _fold(c)
+                except Exception:
+                    continue
+                for x in v if isinstance(v, (tuple, list, frozenset, set)) else [v]:
+                    if isinstance(x, str):
+                        inspected.add(x)
+
+    def retag(prev, kind, text, below="tree"):
+        if kind not in inspected:
+            return kind
+        key = (prev, kind, text, below)
+        if key not in memo:
+            pv = None
+            if prev is not None:
+                pk, pt = prev
+                pv = (pk, pt if pt is not None else (lambda: SStr.atom("prevtext", free=True)))
+            outs = retag_outcomes(e, pv, kind, text if text is not None else (lambda: SStr.atom("curtext", free=True)), below or "tree")
+            kinds = {o[0] for o in outs}
+            if len(kinds) != 1:
+                raise AnalysisError(f"retagging of {kind}({text}) after {prev} (below: {below}) is not determined: {sorted(map(str, kinds))}")
+            memo[key] = next(iter(kinds))
+        r = memo[key]
+        if r.startswith("raise:"):
+            raise RetagRaised(r[6:])
+        return r
+
+    retag.inspected = inspected  # type: ignore[attr-defined]
+    return retag
